@@ -120,6 +120,46 @@ function check (job, resp, prefix, wrapper) {
   return { out, violations }
 }
 
+// One caching Rewriter (the package's default export) is asked about a few file names again and again, with texts that all
+// have the same length (padded with a trailing comment): modified and unmodified ones mixed. Every answer is judged on its
+// own: not modified => the caller's text of THIS call, byte for byte; modified => the engine's content for THIS text.
+function runHistory (spec, ctx) {
+  const rng = new Rng(ctx.seed, 'c12hist', spec.stream)
+  const base = structJobs({ kind: 'random', count: 24, stream: 1200 + spec.stream, cfgNames: ['FULL'] }, ctx).map(j => j.code)
+  const plain = NOOP_INPUTS.filter(x => !['empty', 'large-unmodified', 'hashbang', 'bom'].includes(x[0])).map(x => x[1])
+  const variants = plain.concat(plain.map(t => t.replace(/[a-z]/, c => c.toUpperCase())), plain.map(t => t.replace(/return/, 'return ')), base)
+  const L = Math.max(...variants.map(t => t.length)) + 8
+  const texts = variants.map(t => { const body = t.replace(/\n*$/, '\n'); return body + '//' + 'p'.repeat(L - body.length - 2) })
+  const files = ['/srv/c12h/a.js', '/srv/c12h/b.js', '/srv/c12h/deep/a.js']
+  const calls = []
+  for (let i = 0; i < 120; i++) calls.push({ code: rng.pick(texts), file: rng.pick(files) })
+  const { responses } = rewriteJobs(calls.map(c => ({ code: c.code, file: c.file, config: SETS.FULL, cfgKey: 'FULL' })))
+  const wrapper = loadWrapper()
+  const rep = { evaluations: 0, distinct: [], violations: [], inconclusive: [], samples: [], counters: {}, sets: {} }
+  const bump = (k, n = 1) => { rep.counters[k] = (rep.counters[k] || 0) + n }
+  let current = null
+  wrapper.setNative(() => current)
+  const rw = new wrapper.exports.Rewriter({})
+  const hist = []
+  calls.forEach((c, i) => {
+    const k = kind(responses[i])
+    if (k !== 'ok-modified' && k !== 'ok-notmodified') { if (['abort', 'timeout', 'harness'].includes(k)) rep.inconclusive.push({ reason: 'harness-' + k, detail: 'history' }); return }
+    const ok = responses[i].ok
+    current = JSON.parse(JSON.stringify({ content: ok.content, metrics: ok.metrics, literalsResult: ok.literalsResult }))
+    let got
+    try { got = rw.rewrite(c.code, c.file) } catch (e) { rep.violations.push({ sig: 'history:wrapper-threw', what: 'the caching Rewriter threw: ' + e.message, witness: { history: hist.slice(-6) } }); return }
+    hist.push(`${c.file.split('/').pop()}:${k}:${hashStr(c.code).slice(0, 6)}`)
+    rep.evaluations++
+    rep.distinct.push(hashStr(i + c.code + c.file))
+    bump('history_calls'); bump('history:' + k)
+    const status = got && got.metrics && got.metrics.status
+    const expectContent = k === 'ok-notmodified' ? c.code : ok.content
+    if (status !== ok.metrics.status) rep.violations.push({ sig: 'history:status-of-another-call', what: `call #${i} (${k}) on the caching Rewriter came back with status ${status}; engine said ${ok.metrics.status} (last calls: ${hist.slice(-5).join(', ')})`, witness: { history: hist.slice(-8) } })
+    else if (got.content !== expectContent) rep.violations.push({ sig: `history:content-of-another-call:${k}`, what: `call #${i} (${k}) on the caching Rewriter did not return ${k === 'ok-notmodified' ? "the caller's text of this call" : 'the content the engine produced for this text'} (same file name asked before with another text of the same length; last calls: ${hist.slice(-5).join(', ')})`, witness: { history: hist.slice(-8) } })
+  })
+  return rep
+}
+
 const EMPTY_CFGS = { NO_METHODS: cfg({ plus: false, tpl: false, methods: [] }), OMITTED_METHODS: { localVarPrefix: 'test' } }
 
 module.exports = {
@@ -131,6 +171,8 @@ module.exports = {
     const shards = [{ kind: 'noop' }]
     for (const s of structPlan(ctx, { quickCorpus: 300, cfgNames: Object.keys(SETS), exec: { quickRandom: 1500, quickFormsPerPlacement: 8 } })) shards.push(s)
     for (const s of structPlan(ctx, { quickCorpus: 150, generated: true, exec: { quickRandom: 600, quickFormsPerPlacement: 3, includeKnown: false } })) shards.push(Object.assign({ emptyCfg: true }, s))
+    // call histories on ONE caching Rewriter: the same file name asked again with other texts of the same length
+    for (let k = 0; k < (ctx.tier === 'thorough' ? 40 : 4); k++) shards.push({ kind: 'history', stream: k })
     // the same consistency under source-map references of every kind (usable, broken, unreadable...) x chaining x comments
     for (let k = 0; k < (ctx.tier === 'thorough' ? 60 : 6); k++) shards.push({ kind: 'mapref', stream: k, count: 120 })
     return shards
@@ -142,6 +184,8 @@ module.exports = {
       js = []
       const all = Object.assign({}, SETS, EMPTY_CFGS)
       for (const [name, code] of NOOP_INPUTS) for (const [cn, c] of Object.entries(all)) js.push({ code, file: '/srv/noop/' + name + '.js', meta: { noop: name, sigBase: 'noop:' + name }, config: c, cfgKey: cn, cfgName: cn })
+    } else if (spec.kind === 'history') {
+      return runHistory(spec, ctx)
     } else if (spec.kind === 'mapref') {
       const rng = new Rng(ctx.seed, 'c12mapref', spec.stream)
       const base = structJobs({ kind: 'random', count: 40, stream: 900 + spec.stream, cfgNames: ['FULL'] }, ctx)
@@ -178,7 +222,8 @@ module.exports = {
     }
     return rep
   },
-  async replay (w) {
+  async replay (w, ctx) {
+    if (w.history) { const r = runHistory({ stream: 0 }, ctx || { seed: 1, id: 'C12', tier: 'quick' }); return { violations: r.violations } }
     const job = { code: w.code, meta: w.meta, config: w.config, cfgName: w.cfgName, file: w.file, reader: w.reader }
     const { responses, prefixes } = rewriteJobs([Object.assign({ cfgKey: 'replay' }, job)])
     return { violations: check(job, responses[0], prefixes[0], loadWrapper()).violations }
